@@ -24,9 +24,9 @@ type c19 struct{}
 
 func (c19) ID() string    { return "C19" }
 func (c19) Level() string { return "model_checking" }
-func (c19) Env() []string  { return []string{"GOMAXPROCS=1"} }
+func (c19) Env() []string { return []string{"GOMAXPROCS=1"} }
 func (c19) Rule() string {
-	return "(a) every ordered pair (thorough: triple) of corpus inputs loaded by concurrent controlled threads whose hand-offs are hidden from ThreadSanitizer, so the loads are concurrent in its happens-before relation in every serial order; results compared with the same load run alone. (b) WithServicesTransform / WithImagesResolved on projects of 0..4 services x error injection at every subset of <=2 services x every schedule up to the preemption bound and every ready select branch of the collector, with deadlock detection, thread-termination and result monitors, ThreadSanitizer active. state = distinct happens-before prefix expanded; transition = executed synchronisation step"
+	return "(a) every ordered pair (thorough: triple) of corpus inputs loaded by concurrent controlled threads whose hand-offs are hidden from ThreadSanitizer, so the loads are concurrent in its happens-before relation in every serial order; results compared with the same load run alone. (b) WithServicesTransform / WithImagesResolved on projects of 0..4 services x error injection at every subset of <=2 services x every schedule up to the preemption bound and every ready select branch of the collector, with deadlock detection, thread-termination and result monitors, ThreadSanitizer active. (c) the dependency-ordered traversal on every DAG of <=3 services x direction x limit {0,1,2} x {no, one} failing visit, all schedules within 2 preemptions (deadlock, leak, race; ordering is C13's). state = distinct happens-before prefix expanded; transition = executed synchronisation step"
 }
 func (c19) Assumptions() []string {
 	return []string{
@@ -56,6 +56,23 @@ func doLoad(s *props.Scn, root string) loadRes {
 func (c19) Run(c *core.Ctx) {
 	c19loads(c)
 	c19fanout(c)
+	c19traversal(c)
+}
+
+// c19traversal: the library's other parallel operation. A subset of C13's scenarios (<= 3 services, no root
+// selection, no or one failing visit, every concurrency limit) is explored here for deadlocks, leaked
+// goroutines and data races; the ordering clauses are C13's.
+func c19traversal(c *core.Ctx) {
+	for _, s := range c13scenarios(c.Quick()) {
+		if s.d.n > 3 || len(s.roots) > 0 || len(s.errs) > 1 {
+			continue
+		}
+		s := s
+		if c.Expired() {
+			return
+		}
+		c.Do("traversal/"+s.id(), func() core.Outcome { return s.explore(c, 2, "traversal:") })
+	}
 }
 
 func c19loads(c *core.Ctx) {
